@@ -2010,7 +2010,8 @@ class Message(Group):
 
         if reference is not None:
             try:
-                reference = reference[name]
+                # message names are case-insensitive (Message('adt_a01') is ADT_A01)
+                reference = reference[name.upper() if name else name]
                 if reference[0] == 'mp':
                     raise LegacyMessageProfile()
             except KeyError:
